@@ -1185,3 +1185,13 @@ Proof.
       * congruence.
       * lia.
 Qed.
+
+Lemma Inv_reachable progs sched :
+  exists g, Inv (run_sched HM (init_config HM (hinit bnds) progs) sched) g.
+Proof.
+  apply (run_sched_ind HM (fun c => exists g, Inv c g)).
+  - intros c tid c' [g Hg] Hs. eapply Inv_step; eauto.
+  - exists g0. apply Inv_init.
+Qed.
+
+End Hist.
